@@ -129,6 +129,9 @@ func cmdCheck(args []string) int {
 		for _, c := range r.Callees {
 			cc := cs.ByKey[c]
 			if cc != nil && !cc.Extern {
+				if _, seen := done[c]; !seen && os.Getenv("GOVC_TRACE_CLOSURE") != "" {
+					fmt.Fprintf(os.Stderr, "closure: %s <- %s\n", shortKey(c), shortKey(k))
+				}
 				queue = append(queue, c)
 			}
 		}
@@ -319,21 +322,21 @@ func cmdCheck(args []string) int {
 		knownList = append(knownList, l)
 	}
 	cov := map[string]interface{}{
-		"obligations":            nProve,
-		"discharged":             nDis,
-		"checker_cmd":            fmt.Sprintf("bin/govc check --prop %s --tier %s (VCs over go/ssa of /repo's working tree; solvers z3-new 5.1.0 | cvc5 1.0.3 | z3 4.8.12, %ds per obligation)", *prop, *tier, tmo),
-		"trusted_base":           trusted,
-		"samples":                samples,
+		"obligations":              nProve,
+		"discharged":               nDis,
+		"checker_cmd":              fmt.Sprintf("bin/govc check --prop %s --tier %s (VCs over go/ssa of /repo's working tree; solvers z3-new 5.1.0 | cvc5 1.0.3 | z3 4.8.12, %ds per obligation)", *prop, *tier, tmo),
+		"trusted_base":             trusted,
+		"samples":                  samples,
 		"functions_under_contract": fnKeys,
-		"discharged_by_solver":   bySolver,
-		"solver_seconds":         round3(solverTime),
-		"cover_queries":          nCover,
-		"cover_sat":              nCoverOK,
-		"known_findings":         knownList,
-		"replay_recipes":         recipeLines,
-		"failed_obligations":     namesOf(failedObl),
-		"exhaustive":             false,
-		"explanation":            fmt.Sprintf("%d of %d proof obligations discharged (unsat); %d failed obligations of which %d are recorded known findings; %d/%d vacuity covers satisfiable", nDis, nProve, len(failed), len(findingLines), nCoverOK, nCover),
+		"discharged_by_solver":     bySolver,
+		"solver_seconds":           round3(solverTime),
+		"cover_queries":            nCover,
+		"cover_sat":                nCoverOK,
+		"known_findings":           knownList,
+		"replay_recipes":           recipeLines,
+		"failed_obligations":       namesOf(failedObl),
+		"exhaustive":               false,
+		"explanation":              fmt.Sprintf("%d of %d proof obligations discharged (unsat); %d failed obligations of which %d are recorded known findings; %d/%d vacuity covers satisfiable", nDis, nProve, len(failed), len(findingLines), nCoverOK, nCover),
 	}
 	ev := Evidence{PropertyID: *prop, Tier: *tier, Seed: seedFromEnv(), Level: lvl, Coverage: cov,
 		Assumptions: trusted, WallS: round3(time.Since(t0).Seconds()), Violations: nViol}
